@@ -20,6 +20,9 @@ import Thanos.Model.CompactProto
                duplicates) | x (clean all blocks marked long enough ago) | y:<g> (gateway g syncs) | t:<d> (tick)
       -> per action, `;`-joined:  <ok|no>/<unmarked ids>/<marked ids>/<loaded ids of gateway 0>|<of gateway 1>|…
       (a disabled action answers `no` and leaves the state unchanged)
+    cp.valid <deleteDelay> <events `,`-joined>      (C29 trace validation)
+      event = s | t:<d> | +<id>:<level>:<parents +>:<sources +> | m:<id> | -<id>
+      -> valid | invalid@<k>:<event>     (is every event a transition of the model: compact / gc|markSource / clean / tick)
 -/
 open Thanos Thanos.Parse
 
@@ -119,6 +122,49 @@ def runTrace (P : Params) : State → List String → Option (List String)
       | none => none
       | some rest => some (s!"{if ok then "ok" else "no"}/{digest s'}" :: rest)
 
+/-! trace validation (C29): is the recorded meta-level history of the real bucket a history of the model? -/
+
+def dropChars (n : Nat) (s : String) : String := String.ofList (s.toList.drop n)
+
+def validEvent (P : Params) (s : State) (ev : String) : Option State :=
+  if ev = "s" then step P s .ship
+  else if ev.startsWith "t:" then
+    match parseNat? (dropChars 2 ev) with
+    | some d => step P s (.tick d)
+    | none => none
+  else if ev.startsWith "m:" then
+    match parseNat? (dropChars 2 ev) with
+    | some b =>
+      match step P s (.gc b) with
+      | some s' => some s'
+      | none => (s.blocks.map (·.id)).findSome? (fun r => step P s (.markSource b r))
+    | none => none
+  else if ev.startsWith "-" then
+    match parseNat? (dropChars 1 ev) with
+    | some b => step P s (.clean b)
+    | none => none
+  else if ev.startsWith "+" then
+    match splitChar ':' (dropChars 1 ev) with
+    | [i, lv, par, src] =>
+      match parseNat? i, parseNat? lv, parseNats? '+' par, parseNats? '+' src with
+      | some i, some lv, some par, some src =>
+        match step P s (.compact par) with
+        | some s' =>
+          match s'.blocks.getLast? with
+          | some nb => if nb.id = i ∧ nb.level = lv ∧ nb.sources = sortUniq src then some s' else none
+          | none => none
+        | none => none
+      | _, _, _, _ => none
+    | _ => none
+  else none
+
+def validate (P : Params) : State → Nat → List String → String
+  | _, _, [] => "valid"
+  | s, k, ev :: evs =>
+    match validEvent P s ev with
+    | some s' => validate P s' (k + 1) evs
+    | none => s!"invalid@{k}:{ev}"
+
 end Proto
 
 def handle : List String → String
@@ -155,6 +201,12 @@ def handle : List String → String
       | some outs => joinWith ";" outs
       | none => "bad-op"
     | _, _, _, _ => "bad-op"
+  | ["cp.valid", dd, evs] =>
+    match parseNat? dd with
+    | some dd =>
+      let P : CompactProto.Params := { deleteDelay := dd, divisor := 2, ignoreDelay := dd / 2, lag := 0, levelTie := currentLevelTie }
+      validate P (CompactProto.init 0) 1 (listOf ',' evs)
+    | none => "bad-op"
   | _ => "bad-op"
 
 end Thanos.Driver.Compact
